@@ -160,6 +160,47 @@ class ForInv(object):
                 if getattr(m, 'dom2', None) is not None:
                     m.dom2 = z3.Const('heapdom2!%d' % next(I.st.n), m.dom2.sort())
 
+    def run_while(self, I, s, fr, key):
+        """`while cond:` cut at the invariant: established at entry, preserved by one arbitrary iteration
+        (started in an arbitrary state satisfying invariant and condition), assumed together with the negated
+        condition afterwards.  Partial correctness: termination is not an obligation.  inv(I, fr, k) gets a
+        fresh symbolic iteration count k (>= 0) it may ignore."""
+        import z3
+        from pyvc.engine import PathEnd, ContinueSig, BreakSig, Unsupported
+        st = I.st
+        tag = '%s.loop%d' % key
+        I.loop_carried = sorted(n for n in assigned_names(s.body) if n in fr.env)
+        I.inv_phase = 'init'
+        for nm, g in self.inv(I, fr, z3.IntVal(0)):
+            st.vc('%s.init:%s' % (tag, nm), g, kind='inv')
+        in_body = st.branch(z3.Bool('%s!enter!%d' % (tag, next(st.n))))
+        self._havoc(I, s, fr)
+        k = z3.Int('%s!k!%d' % (tag, next(st.n)))
+        st.assume(k >= 0)
+        if in_body:
+            I.inv_phase = 'assume'
+            for nm, g in self.inv(I, fr, k):
+                st.assume(g)
+            if not I.truth(I.eval(s.test, fr)):
+                raise PathEnd()
+            try:
+                I.exec_block(s.body, fr)
+            except ContinueSig:
+                pass
+            except BreakSig:
+                raise Unsupported('break inside a loop cut at an invariant')
+            I.inv_phase = 'preserved'
+            for nm, g in self.inv(I, fr, k + 1):
+                st.vc('%s.preserved:%s' % (tag, nm), g, kind='inv')
+            raise PathEnd()
+        I.inv_phase = 'exit'
+        for nm, g in self.inv(I, fr, k):
+            st.assume(g)
+        if I.truth(I.eval(s.test, fr)):
+            raise PathEnd()
+        if s.orelse:
+            I.exec_block(s.orelse, fr)
+
     def run_for(self, I, s, fr, seq, key):
         import z3
         from pyvc.engine import PathEnd, ContinueSig, BreakSig, Unsupported
